@@ -14,6 +14,13 @@
 //!                           id first, one "step" event per step), joined, and
 //!                           the final contents are logged
 //!
+//!   {"op":"free","reps":R}  (only as the first op) the threads run *unscheduled*
+//!                           behind a spin barrier, R times from the same
+//!                           initial memory; one "free" event lists the
+//!                           distinct outcomes (final memory, job outcomes);
+//!                           the last repetition's state is what "end" logs.
+//!                           Instructions that no hook announces race here.
+//!
 //! Every "step" event records what happened, never what should have happened:
 //! the thread, the hook kind and word index of the instruction it executed,
 //! the contents of that word afterwards (`cur`), every word of either vector
@@ -49,6 +56,8 @@ trait FieldOps: Sync {
     unsafe fn set_unchecked(&self, idx: usize, val: u64, ord: Ordering);
     fn get(&self, idx: usize, ord: Ordering) -> u64;
     fn snapshot(&self) -> Vec<u64>;
+    /// overwrites the backing words (between free-running repetitions)
+    fn store_words(&self, words: &[u64]);
     /// conversion to the non-atomic form: (value of every field, backing words)
     fn into_plain(self: Box<Self>) -> (Vec<u64>, Vec<u64>);
 }
@@ -67,6 +76,11 @@ macro_rules! field_ops {
             }
             fn snapshot(&self) -> Vec<u64> {
                 self.as_slice().iter().map(|x| x.load(Ordering::SeqCst) as u64).collect()
+            }
+            fn store_words(&self, words: &[u64]) {
+                for (a, x) in self.as_slice().iter().zip(words) {
+                    a.store(*x as $w, Ordering::SeqCst);
+                }
             }
             fn into_plain(self: Box<Self>) -> (Vec<u64>, Vec<u64>) {
                 let n = BitFieldSliceCore::<$a>::len(&*self);
@@ -238,6 +252,150 @@ fn drive(ops: &[Value], nt: usize, s: &Sched, step: &mut dyn FnMut(usize)) {
     }
 }
 
+/// Start line of the free-running repetitions: no lock, no sleep on the fast
+/// path, so the threads leave it within nanoseconds of each other.
+struct SpinBarrier {
+    count: AtomicUsize,
+    gen: AtomicUsize,
+    n: usize,
+}
+
+impl SpinBarrier {
+    fn new(n: usize) -> Self {
+        SpinBarrier { count: AtomicUsize::new(0), gen: AtomicUsize::new(0), n }
+    }
+    fn wait(&self) {
+        let g = self.gen.load(Ordering::Acquire);
+        if self.count.fetch_add(1, Ordering::AcqRel) + 1 == self.n {
+            self.count.store(0, Ordering::Relaxed);
+            self.gen.fetch_add(1, Ordering::Release);
+        } else {
+            let mut spins = 0u32;
+            while self.gen.load(Ordering::Acquire) == g {
+                spins += 1;
+                if spins > 20_000 {
+                    std::thread::yield_now();
+                } else {
+                    std::hint::spin_loop();
+                }
+            }
+        }
+    }
+}
+
+/// `reps` of a leading {"op":"free"} op
+fn free_reps(ops: &[Value]) -> Option<usize> {
+    match ops.first() {
+        Some(o) if o["op"].as_str() == Some("free") => Some(get_usize(o, "reps").max(1)),
+        _ => None,
+    }
+}
+
+const MAX_OUTCOMES: usize = 48;
+
+fn run_job(
+    j: &Job,
+    field: &dyn FieldOps,
+    bitv: &AtomicBitVec<Vec<AtomicUsize>>,
+    ord: Ordering,
+) -> Result<Option<bool>, String> {
+    guard(|| match j.kind.as_str() {
+        "setfield" => {
+            field.set(j.idx, j.val, ord);
+            None
+        }
+        "efset" => {
+            // the body of EliasFanoConcurrentBuilder::set
+            unsafe { field.set_unchecked(j.idx, j.val, ord) };
+            bitv.set(j.hi, true, ord);
+            None
+        }
+        "setbit" => {
+            bitv.set(j.idx, true, ord);
+            None
+        }
+        "clearbit" => {
+            bitv.set(j.idx, false, ord);
+            None
+        }
+        "swapbit" => Some(bitv.swap(j.idx, j.flag, ord)),
+        "getbit" => Some(bitv.get(j.idx, ord)),
+        k => {
+            eprintln!("atomic: unknown job kind {k}");
+            std::process::exit(2);
+        }
+    })
+}
+
+/// The free-running repetitions on the executor's own vectors (mode "vec").
+#[allow(clippy::too_many_arguments)]
+fn run_free(
+    ctx: &mut Ctx,
+    reps: usize,
+    progs: &[Vec<Job>],
+    field: &dyn FieldOps,
+    bitv: &AtomicBitVec<Vec<AtomicUsize>>,
+    finit: &[u64],
+    binit: &[u64],
+    ord: Ordering,
+    outs: &Outs,
+) {
+    let nt = progs.len();
+    let op = json!({"op": "free", "reps": reps});
+    ctx.begin(&op);
+    let bar = SpinBarrier::new(nt + 1);
+    let mut outcomes: Vec<Value> = Vec::new();
+    let mut seen = std::collections::HashSet::new();
+    let mut distinct = 0usize;
+    std::thread::scope(|scope| {
+        for (tid, prog) in progs.iter().enumerate() {
+            let bar = &bar;
+            scope.spawn(move || {
+                for rep in 0..reps {
+                    bar.wait();
+                    // a few cycles of skew, different in every repetition
+                    for _ in 0..((rep * 7 + tid * 13 + rep / 11) % 24) {
+                        std::hint::spin_loop();
+                    }
+                    for j in prog {
+                        let r = run_job(j, field, bitv, ord);
+                        outs[tid].lock().unwrap().push(match r {
+                            Ok(b) => (true, b),
+                            Err(_) => (false, None),
+                        });
+                    }
+                    bar.wait();
+                }
+            });
+        }
+        for rep in 0..reps {
+            if rep > 0 {
+                field.store_words(finit);
+                let w: &[AtomicUsize] = bitv.as_ref();
+                for (a, x) in w.iter().zip(binit) {
+                    a.store(*x as usize, Ordering::SeqCst);
+                }
+                for o in outs.iter() {
+                    o.lock().unwrap().clear();
+                }
+            }
+            bar.wait(); // start
+            bar.wait(); // every program is over
+            let w: &[AtomicUsize] = bitv.as_ref();
+            let bmem: Vec<u64> = w.iter().map(|x| x.load(Ordering::SeqCst) as u64).collect();
+            let x = json!({"fmem": per_word(&field.snapshot()), "bmem": per_word(&bmem), "outs": outs_json(outs)});
+            let fresh = seen.insert(x.to_string());
+            if fresh {
+                distinct += 1;
+            }
+            if (fresh && outcomes.len() < MAX_OUTCOMES) || rep + 1 == reps {
+                outcomes.push(x);
+            }
+        }
+    });
+    ctx.emit(&op, "ret", json!({"outcomes": outcomes, "distinct": distinct}));
+}
+
 fn nx_of(after: Status) -> Value {
     match after {
         Status::Parked(k2, w2) => json!([KINDS[k2 as usize & 3], w2]),
@@ -357,6 +515,11 @@ pub fn run(ep: &Value, ctx: &mut Ctx) {
     ctx.begin(&hdr);
     ctx.emit(&hdr, "ret", json!({"f0": per_word(&field.snapshot()), "b0": per_word(&bsnap(&bitv))}));
 
+    let free = free_reps(ops);
+    if let Some(reps) = free {
+        run_free(ctx, reps, &progs, &*field, &bitv, &finit, &binit, ord, &outs);
+    }
+    if free.is_none() {
     std::thread::scope(|scope| {
         for (tid, prog) in progs.iter().enumerate() {
             let s = s.clone();
@@ -366,32 +529,7 @@ pub fn run(ep: &Value, ctx: &mut Ctx) {
             scope.spawn(move || {
                 let _me = s.enter(tid);
                 for j in prog {
-                    let r = guard(|| match j.kind.as_str() {
-                        "setfield" => {
-                            field.set(j.idx, j.val, ord);
-                            None
-                        }
-                        "efset" => {
-                            // the body of EliasFanoConcurrentBuilder::set
-                            unsafe { field.set_unchecked(j.idx, j.val, ord) };
-                            bitv.set(j.hi, true, ord);
-                            None
-                        }
-                        "setbit" => {
-                            bitv.set(j.idx, true, ord);
-                            None
-                        }
-                        "clearbit" => {
-                            bitv.set(j.idx, false, ord);
-                            None
-                        }
-                        "swapbit" => Some(bitv.swap(j.idx, j.flag, ord)),
-                        "getbit" => Some(bitv.get(j.idx, ord)),
-                        k => {
-                            eprintln!("atomic: unknown job kind {k}");
-                            std::process::exit(2);
-                        }
-                    });
+                    let r = run_job(j, field, bitv, ord);
                     outs[tid].lock().unwrap().push(match r {
                         Ok(b) => (true, b),
                         Err(_) => (false, None),
@@ -450,6 +588,7 @@ pub fn run(ep: &Value, ctx: &mut Ctx) {
         };
         drive(ops, nt, &s, &mut do_step);
     });
+    }
 
     // all threads are joined: final contents, through every observation path
     let op = json!({"op": "end"});
@@ -517,6 +656,59 @@ fn run_efb(ep: &Value, ctx: &mut Ctx, hdr: &Value, ops: &[Value], progs: &[Vec<J
         }
     };
     ctx.emit(hdr, "ret", json!({}));
+    let mut cb = cb;
+    if let Some(reps) = free_reps(ops) {
+        // a fresh builder per repetition, the threads behind a spin barrier
+        let op = json!({"op": "free", "reps": reps});
+        ctx.begin(&op);
+        let mut outcomes: Vec<Value> = Vec::new();
+        let mut seen = std::collections::HashSet::new();
+        let mut distinct = 0usize;
+        let mut failed: Option<String> = None;
+        for rep in 0..reps {
+            let b = EliasFanoConcurrentBuilder::new(n, u);
+            for o in outs.iter() {
+                o.lock().unwrap().clear();
+            }
+            let bar = SpinBarrier::new(nt);
+            std::thread::scope(|scope| {
+                for (tid, prog) in progs.iter().enumerate() {
+                    let b = &b;
+                    let bar = &bar;
+                    scope.spawn(move || {
+                        bar.wait();
+                        for j in prog {
+                            let r = guard(|| unsafe { b.set(j.idx, j.x) });
+                            outs[tid].lock().unwrap().push((r.is_ok(), None));
+                        }
+                    });
+                }
+            });
+            if rep + 1 == reps {
+                cb = b; // "end" builds and logs the last one
+                break;
+            }
+            match guard(|| ef_parts(b.build())) {
+                Ok(c) => {
+                    let x = json!({"cb": c, "outs": outs_json(outs)});
+                    if seen.insert(x.to_string()) {
+                        distinct += 1;
+                        if outcomes.len() < MAX_OUTCOMES {
+                            outcomes.push(x);
+                        }
+                    }
+                }
+                Err(m) => {
+                    failed = Some(m);
+                    break;
+                }
+            }
+        }
+        match failed {
+            Some(m) => ctx.emit(&op, "panic", json!({"msg": m})),
+            None => ctx.emit(&op, "ret", json!({"outcomes": outcomes, "distinct": distinct})),
+        }
+    } else {
     std::thread::scope(|scope| {
         for (tid, prog) in progs.iter().enumerate() {
             let s = s.clone();
@@ -549,6 +741,7 @@ fn run_efb(ep: &Value, ctx: &mut Ctx, hdr: &Value, ops: &[Value], progs: &[Vec<J
         };
         drive(ops, nt, s, &mut do_step);
     });
+    }
     let op = json!({"op": "end"});
     ctx.begin(&op);
     let conc = guard(|| ef_parts(cb.build()));
